@@ -7,10 +7,20 @@ Two sources, both read from the CURRENT working tree of replicat:
   the custom backend `vfy` (found through the namespace package), and of every sub-command built by `cli.make_main_parser`:
   dest, option strings, action class, `type` function, kind of default, mutual-exclusion groups; `Config` fields; whether
   `set_defaults(**defaults)` reaches each sub-parser;
-* the AST: the order of the calls in `main()` (`read_config` / `apply_known` / `apply_env` / `-r` override /
-  `load_backend` / backend config / `defaults` / `make_main_parser` / second parse / handler), the `popset`/`getset`
-  calls of `Config.apply_known` / `apply_env` (file key → field → validator, in order), the `_check_mutually_exclusive`
-  calls, and the validators used by `BaseBackendConfig`.
+* a symbolic execution of the source (tools/optflow.py; helper functions followed, objects identified by what CREATES them, not
+  by their names):
+  - `main()`: the steps `read_config` / `<Config>.apply_known` / `apply_env` / the `-r` override (a store to the config that
+    happens exactly when the CLI value is not None) / `load_backend(*cfg.repository)` / the backend config's `apply_known` /
+    `apply_env` / the layers of the `defaults=` mapping handed to `make_main_parser` in OVERRIDING order (`d = a.dict();
+    d.update(b.dict())`, `{**a.dict(), **b.dict()}`, `dict(a.dict(), **b.dict())`, `a.dict() | b.dict()` are one thing) / the
+    second parse / the handler coroutine.  The emitted order is the CANONICAL linearisation of the dependency order (two steps
+    commute unless one writes what the other reads or writes, `STEP_RW`), so reordering independent statements changes
+    nothing; an unmodelled store / method call on the config objects empties the list;
+  - `Config.apply_known` / `apply_env`, `BaseBackendConfig.*`: which key ends up in which field through which validator — the
+    store `self.<field> = V(<copy of the mapping>.pop(key))` that happens exactly when the key is present (KeyError ⇒ nothing),
+    however popset / getset / _validate_set are spelled or inlined; the `no-cache` shape; the `_check_mutually_exclusive`
+    calls.  Validators / type functions are known by their fully-qualified name, private ones also by BEHAVIOUR
+    (`classify_by_behaviour`), so renaming `_natural_number` or `_check_boolean` is harmless.
 
 Anything not recognised becomes `OptTy.other` / `OptCliKind.other` / a missing step, so that the well-formedness
 lemmas (`decide` over the table) stop compiling — never assumed silently.
